@@ -199,6 +199,11 @@ def shortcut(ctx: Ctx) -> List[Ob]:
             continue
         c = calls[-1]
         r = norm(c.func.value)
+        if isinstance(c.func.value, ast.Name) and r not in recvs:
+            # a local alias of the documented receiver
+            vals = [b.expr for b in ctx.env.scope(w).resolve(r)[1] if b.kind == "val" and b.expr is not None]
+            if len(vals) == 1:
+                r = norm(vals[0])
         ok = r in recvs
         obs.append(ctx.ob("SHORTCUT", props, w, f"{q}: receiver of {callee}()", c, ok,
                           "" if ok else f"{callee}() is called on `{r}`, documented receiver is {sorted(recvs)}"))
